@@ -289,3 +289,15 @@ theorem norm_det_of_unitary {n : Type} [Fintype n] [DecidableEq n] (U : Matrix n
 
 
 end Toq.Entangle
+
+namespace Toq.Entangle
+
+/-- `rankQ` only reads the entries inside the `n × m` block -/
+theorem rankQ_congr (n m : Nat) (A B : Nat → Nat → QI) (h : ∀ i j, i < n → j < m → A i j = B i j) : rankQ n m A = rankQ n m B := by
+  unfold rankQ
+  have : (Array.ofFn (n := n) fun i => Array.ofFn (n := m) fun j => A i.val j.val)
+      = (Array.ofFn (n := n) fun i => Array.ofFn (n := m) fun j => B i.val j.val) := by
+    congr 1; funext i; congr 1; funext j; exact h i.val j.val i.isLt j.isLt
+  rw [this]
+
+end Toq.Entangle
